@@ -243,6 +243,12 @@ def finish(prop, tier, level, coverage, assumptions, t0, violations, errors):
 def explore_check(prop, tier, tasks, rule, assumptions, extra_cov=None, level="model_checking"):
     """Run S/F-mode tasks on the pool and write evidence.  Returns exit code."""
     t0 = time.monotonic()
+    cap = float(os.environ.get("JMC_TASK_CAP", "1200" if tier == "thorough" else "0"))
+    if cap:
+        # every task of a thorough run has a wall-clock cap; a task that hits it is reported under
+        # caps_hit and makes the run non-exhaustive (never silently)
+        for t in tasks:
+            t.setdefault("time_cap", cap)
     tot = dict(executions=0, states=0, transitions=0, pruned=0, nontrivial=0)
     outcomes = set()
     violations = []
